@@ -314,4 +314,28 @@ PROPS = {
         "assumptions": ["str::parse / FromStr are thin wrappers around from_str_bytes(.., None)",
                         "&str arguments: only valid UTF-8 strings are generated"],
     },
+    "C12": {
+        "modules": [T + "C12", T + "C01"],
+        "theorems": [(T + "C12.stream_eq_spec", T + "C12"),
+                     (T + "C12.hard_error_wins", T + "C12"),
+                     (T + "C12.stream_eq_spec_partial", T + "C12"),
+                     (T + "C12.interrupted_counterexample", T + "C12"),
+                     (T + "C12.source_retries_interrupted", T + "C12"),
+                     (T + "C01.tables", T + "C01")],
+        "extract_keys": ["BUFFER_SIZE", "hash_stream_common"],
+        "spec_is_property": True,
+        "streams": {
+            "quick": [("default", "stream", 1500), ("default", "file", 0), ("embedded", "stream", 600),
+                      ("optdef", "stream", 600)],
+            "thorough": [("default", "stream", 30000), ("default", "file", 0), ("embedded", "stream", 10000),
+                         ("optdef", "stream", 10000), ("unsafe", "stream", 10000), ("unsafe", "file", 0),
+                         ("default-dev", "stream", 10000), ("strict", "stream", 5000)],
+        },
+        "assumptions": [
+            "a reader is modelled as a script of Read::read results; File::open/read are the OS (hash_file is "
+            "exercised on real files of 0, <1 MiB, =1 MiB, >1 MiB and a missing path)",
+            "the model of the read loop takes from the translator whether the source retries "
+            "ErrorKind::Interrupted (Gen.retryInterrupted) and whether the len<=buffer invariant is present",
+        ],
+    },
 }
